@@ -1,16 +1,16 @@
 (* C06 (continued) -- the IoU laws as UNCONDITIONAL theorems about the executable evaluator.
    Props/C06.v part C states the BEV / 3D IoU laws relative to an abstract intersection-area
-   function [inter] with seven hypotheses.  Here six of the seven are proved for the concrete
+   function [inter] with seven hypotheses.  Here all seven are proved for the concrete
    exact rational evaluator  inter_clip e g = shoelace area of Sutherland-Hodgman(e clipped by g)
    (Model/Clip.v, the function the correspondence compares with shapely on every run), for ALL
    valid boxes and ALL rigid motions, and the IoU laws are instantiated with no hypothesis about
    an oracle:  in [0,1],  1 for identical footprints,  0 for separated-or-touching footprints,
-   3D <= BEV,  invariant under a common yaw rotation about the ego + translation.
-   Proofs: Proofs/ClipArea.v.  "Area" is the shoelace sum throughout (no measure theory).
-   The seventh hypothesis (symmetry of the evaluator in its two arguments) is stated below as
-   [C06_clip_inter_symmetric_statement]; see the comment there for what is proved of it. *)
+   3D <= BEV,  symmetric in the two boxes,  invariant under a common yaw rotation about the ego + translation.
+   Proofs: Proofs/ClipArea.v, Proofs/ClipAreaSym.v.  "Area" is the shoelace sum throughout (no measure theory).
+   All seven hypotheses are proved (part H: symmetry; [C06_clip_inter_satisfies_hypotheses]). *)
 From Coq Require Import List ZArith QArith Bool Lia Lqa.
-From PE Require Import Base.QUtil Model.Geom2 Model.Clip Proofs.Geom2Proofs Proofs.ClipProofs Proofs.ClipArea.
+From PE Require Import Base.QUtil Model.Geom2 Model.Clip Proofs.Geom2Proofs Proofs.ClipProofs Proofs.ClipArea
+  Proofs.ClipAreaSym.
 Import ListNotations.
 Open Scope Q_scope.
 
@@ -110,22 +110,68 @@ Proof. exact iou_clip_rigid_invariant. Qed.
 Print Assumptions C06_clip_iou_rigid_invariant.
 
 (* ---------------------------------------------------------------------------------------- *)
-(* H. symmetry of the evaluator: the full statement, and the part that is proved              *)
+(* H. symmetry of the evaluator                                                               *)
 (* ---------------------------------------------------------------------------------------- *)
-(* NOT proved in general: it needs that clipping e by g and clipping g by e bound the same
-   point set AND that the shoelace sum is monotone under containment of convex polygons.  The
-   correspondence checks it numerically on every run (check_swapped). *)
-Definition C06_clip_inter_symmetric_statement : Prop :=
-  forall e g : box, box_valid e -> box_valid g -> inter_clip e g == inter_clip g e.
+(* clipping e by g and clipping g by e give the same area.  Ingredients (Proofs/ClipAreaSym.v),
+   each stated for general polygons below: cutting by a line is additive; a once-traversed
+   polygon inside a convex polygon has at most its shoelace sum; a point of the hull of a proper
+   convex polygon is a convex combination of vertices, so a pass cannot collapse a polygon whose
+   hull has a point strictly inside the clipping line *)
+Theorem C06_clip_inter_symmetric : forall e g : box, box_valid e -> box_valid g ->
+  inter_clip e g == inter_clip g e.
+Proof. exact inter_clip_sym. Qed.
+Print Assumptions C06_clip_inter_symmetric.
 
-(* proved: symmetric for identical and for separated-or-touching footprints (the two cases the
-   property text names), and in every case both orders lie in [0, min(area e, area g)] *)
-Theorem C06_clip_inter_symmetric_partial : forall e g : box, box_valid e -> box_valid g ->
-  (same_bev e g \/ boxes_disjoint e g -> inter_clip e g == inter_clip g e /\ iou2_clip e g == iou2_clip g e) /\
-  (0 <= inter_clip e g /\ inter_clip e g <= area_rect e /\ inter_clip e g <= area_rect g) /\
-  (0 <= inter_clip g e /\ inter_clip g e <= area_rect e /\ inter_clip g e <= area_rect g).
-Proof. exact inter_clip_sym_partial. Qed.
-Print Assumptions C06_clip_inter_symmetric_partial.
+Theorem C06_clip_iou_symmetric : forall e g : box, box_valid e -> box_valid g ->
+  iou2_clip e g == iou2_clip g e /\ iou3_clip e g == iou3_clip g e.
+Proof. exact iou_clip_sym. Qed.
+Print Assumptions C06_clip_iou_symmetric.
+
+(* all seven hypotheses of Props/C06.v part C (C06_nonvacuous_inter_hypotheses) hold for the
+   evaluator itself: every theorem of part C applies to [inter := inter_clip] *)
+Theorem C06_clip_inter_satisfies_hypotheses :
+  (forall e g, box_valid e -> box_valid g -> 0 <= inter_clip e g) /\
+  (forall e g, box_valid e -> box_valid g -> inter_clip e g <= area_rect e) /\
+  (forall e g, box_valid e -> box_valid g -> inter_clip e g <= area_rect g) /\
+  (forall e g, box_valid e -> box_valid g -> inter_clip e g == inter_clip g e) /\
+  (forall e g, box_valid e -> box_valid g -> same_bev e g -> inter_clip e g == area_rect e) /\
+  (forall e g, box_valid e -> box_valid g -> boxes_disjoint e g -> inter_clip e g == 0) /\
+  (forall m e g, motion_unit m -> box_valid e -> box_valid g ->
+     inter_clip (move_box m e) (move_box m g) == inter_clip e g).
+Proof.
+  split; [exact inter_clip_nonneg_v|]. split; [exact inter_clip_le_l_v|]. split; [exact inter_clip_le_r|].
+  split; [exact inter_clip_sym|]. split; [exact inter_clip_same|]. split; [exact inter_clip_disjoint|].
+  exact inter_clip_rigid_v.
+Qed.
+Print Assumptions C06_clip_inter_satisfies_hypotheses.
+
+(* cutting ANY polygon by a proper directed line: the shoelace sums of the two sides add up *)
+Theorem C06_clip_cut_additive : forall (a b c : pt) (P : list pt), ~ cross a b c == 0 ->
+  shoelace2 (clip_edge a b P) + shoelace2 (clip_edge b a P) == shoelace2 P.
+Proof. exact clip_edge_additive. Qed.
+Print Assumptions C06_clip_cut_additive.
+
+(* monotonicity of the shoelace sum: Q is traversed once (leaves the inner side of every line at
+   most once), R = r0 :: rs is convex counter-clockwise and not a single point, every vertex of
+   Q is on the inner side of (or on) every edge of R *)
+Theorem C06_shoelace_monotone : forall (r0 : pt) (rs Q : list pt),
+  (forall p, In p (r0 :: rs) -> forall u v, In (u, v) (cpairs (r0 :: rs)) -> 0 <= cross u v p) ->
+  ~ (forall x, In x rs -> pt_eq x r0) ->
+  (forall n1 n2, (cexs (inside n1 n2) Q <= 1)%nat) ->
+  (forall p, In p Q -> forall u v, In (u, v) (cpairs (r0 :: rs)) -> 0 <= cross u v p) ->
+  shoelace2 Q <= shoelace2 (r0 :: rs).
+Proof. exact shoelace_mono. Qed.
+Print Assumptions C06_shoelace_monotone.
+
+(* a point on the inner side of every edge of a convex counter-clockwise polygon of positive
+   shoelace sum satisfies every linear inequality that all the vertices satisfy *)
+Theorem C06_hull_is_convex_combination : forall (n1 n2 p0 : pt) (ps : list pt) (a : pt),
+  (forall p, In p (p0 :: ps) -> forall u v, In (u, v) (cpairs (p0 :: ps)) -> 0 <= cross u v p) ->
+  0 < shoelace2 (p0 :: ps) ->
+  (forall u v, In (u, v) (cpairs (p0 :: ps)) -> 0 <= cross u v a) ->
+  (forall v, In v (p0 :: ps) -> cross n1 n2 v <= 0) -> cross n1 n2 a <= 0.
+Proof. exact in_hull_conv. Qed.
+Print Assumptions C06_hull_is_convex_combination.
 
 (* ---------------------------------------------------------------------------------------- *)
 (* non-vacuity: rotated overlapping boxes, a common rigid motion, separated, touching, nested *)
